@@ -24,6 +24,7 @@ RULE = ("wall-clock schedules emitted by the exhaustive TLC runs of RealtimeMC (
         "the run is late in non-strict mode; counted per scenario and kind")
 
 WORKERS = 8
+JVMS = 10       # concurrent trace-validation JVMs (other checks share the machine)
 Z = {"a": 0, "b": 0, "c": 0, "s": []}
 KINDS = {"sleep": 5, "timeout": 1, "event": 2, "succeed": 2, "fail": 0.5, "spawn": 2, "yield": 4, "interrupt": 1, "cond": 1}
 PLAN = {"run": 2, "step": 3, "rununtil": 3, "runev": 1}
@@ -229,21 +230,21 @@ def mc_cfgs(ctx):
                 raise core.Machinery("constant %s not found in %s" % (k, name))
         return s
     runs = [("RealtimeMC/strict", text("RealtimeMC_strict.cfg"), True),
-            ("RealtimeMC/sleep", text("RealtimeMC_sleep.cfg"), True),
+            ("RealtimeMC/sleep", text("RealtimeMC_sleep.cfg"), "nonstrict"),      # Stricts = {0}: nothing raises there
             ("RealtimeMC/req", text("RealtimeMC_req.cfg"), True)]
     if not ctx.quick:
         # larger bounds, clauses only (no emission: the scenario volume comes from the runs above and the random tiers)
         noemit = lambda s: s.replace("CONSTRAINT Emit\n", "")
         runs += [("RealtimeMC/strict-wide", noemit(text("RealtimeMC_strict.cfg", T0s="{0, 5}", GapAmts='{"1", "F1"}',
                                                          WorkAmts='{"0", "1", "F", "F1", "2F", "2F1"}')), False),
-                 ("RealtimeMC/sleep-wide", noemit(text("RealtimeMC_sleep.cfg", Fs="{2, 4, 8}", T0s="{0, 5}", Deltas="{0, 1, 2}",
+                 ("RealtimeMC/sleep-wide", noemit(text("RealtimeMC_sleep.cfg", Fs="{2, 4, 8}", Stricts="{0, 1}", T0s="{0, 5}", Deltas="{0, 1, 2}",
                                                         SleepModes='{"one", "short", "exact", "late1", "lateF", "lateF1"}')), False),
-                 ("RealtimeMC/three-steps", noemit(text("RealtimeMC_strict.cfg", MaxSteps="3", MaxTurns="4", Deltas="{0, 1}",
-                                                         WorkAmts='{"0", "F1", "2F1"}', SleepModes='{"exact", "lateF1"}')), False)]
+                 ("RealtimeMC/three-steps", noemit(text("RealtimeMC_strict.cfg", MaxSteps="3", MaxTurns="4",
+                                                         WorkAmts='{"0", "F", "F1", "2F1"}', SleepModes='{"exact", "lateF1"}')), False)]
     return runs
 
 
-def evaluate(ctx, scs, traces, kernel_limit=None):
+def evaluate(ctx, scs, traces, kernel_limit=None, jvms=None):
     for sc, tr in zip(scs, traces):
         if tr.get("driver_error"):
             raise core.Machinery("realtime driver failed on %s: %s" % (json.dumps(sc)[:400], tr["driver_error"]))
@@ -260,7 +261,8 @@ def evaluate(ctx, scs, traces, kernel_limit=None):
         else:
             ctx.count("log_equal_to_plain_environment")
     # (2) pacing: wall-clock trace against Realtime.tla
-    stuck = ctx.validate("RealtimeTrace", "RealtimeTrace.cfg", "misc", [{"cfg": t["cfg"], "ev": t["ev"]} for t in traces], shard=500)
+    stuck = ctx.validate("RealtimeTrace", "RealtimeTrace.cfg", "misc", [{"cfg": t["cfg"], "ev": t["ev"]} for t in traces], shard=500,
+                         workers=jvms)
     for i in sorted(stuck):
         pos = stuck[i]
         ev = traces[i]["ev"]
@@ -274,7 +276,7 @@ def evaluate(ctx, scs, traces, kernel_limit=None):
     if kernel_limit is not None and len(idx) > kernel_limit:
         idx = sorted(ctx.rng.sample(idx, kernel_limit))
     ktr = [{"scripts": traces[i]["scripts"], "log": traces[i]["log"]} for i in idx]
-    kst = ctx.validate("KernelTrace", "KernelTrace.cfg", "kernel", ktr, shard=150) if ktr else {}
+    kst = ctx.validate("KernelTrace", "KernelTrace.cfg", "kernel", ktr, shard=150, workers=jvms) if ktr else {}
     ctx.extra["rt_logs_validated_against_SimKernel"] = ctx.extra.get("rt_logs_validated_against_SimKernel", 0) + len(ktr)
     for j in sorted(kst):
         i = idx[j]
@@ -304,7 +306,8 @@ def run(ctx, replay=None):
     n_prog = 1200 if ctx.quick else 30000
     scs = []
     for label, cfg, emits in mc_cfgs(ctx):
-        r = ctx.mc("RealtimeMC", cfg, "misc", required_actions=MC_ACTIONS, label=label, timeout=3000,
+        req = [a for a in MC_ACTIONS if not (emits == "nonstrict" and a in ("MTurnRaise", "MRaised"))]
+        r = ctx.mc("RealtimeMC", cfg, "misc", required_actions=req, label=label, timeout=3000,
                    workers=WORKERS if ctx.quick else 16)
         if not emits:
             continue
@@ -324,14 +327,21 @@ def run(ctx, replay=None):
     scs += [random_pacing(ctx) for _ in range(n_agenda)]
     base = ctx.rng.randrange(1 << 30)
     scs += [random_program(ctx, base + i) for i in range(n_prog)]
-    traces = ctx.drive("realtime", scs, procs=12)
-    rejected = evaluate(ctx, scs, traces, kernel_limit=900 if ctx.quick else 20000)
+    # batches keep the recorded traces of the thorough tier out of memory (about 40 events per scenario)
+    ctx.rng.shuffle(scs)
+    BATCH = 16000
+    klimit = 900 if ctx.quick else 20000
     shown = set()
-    for sc, tr in zip(scs, traces):
-        if sc["origin"] not in shown:
-            shown.add(sc["origin"])
-            ctx.sample({"origin": sc["origin"], "cfg": tr["cfg"], "program": tr["scripts"], "schedule": sc["rt"],
-                        "wall_clock_trace": tr["ev"][:24], "kernel_log": tr["log"][:8]})
+    for b in range(0, len(scs), BATCH):
+        part = scs[b:b + BATCH]
+        traces = ctx.drive("realtime", part, procs=12)
+        evaluate(ctx, part, traces, kernel_limit=max(1, klimit * len(part) // len(scs)), jvms=JVMS)
+        for sc, tr in zip(part, traces):
+            if sc["origin"] not in shown:
+                shown.add(sc["origin"])
+                ctx.sample({"origin": sc["origin"], "cfg": tr["cfg"], "program": tr["scripts"], "schedule": sc["rt"],
+                            "wall_clock_trace": tr["ev"][:24], "kernel_log": tr["log"][:8]})
+        del traces
     if not ctx.violations:
         for k in REQUIRED:
             if not ctx.nontrivial.get(k):
